@@ -970,6 +970,9 @@ func c44GPGToGo(g *gpgEnv, p *keyPool, cs *c44Case, bufSize int) (skip string, e
 		if cs.signer != nil {
 			args = append(args, "--sign")
 		}
+		if cs.randSrc>>24&1 == 1 {
+			args = append(args, "--throw-keyids") // hidden recipients: key id 0 in every session key packet
+		}
 		args = append(args, "--encrypt")
 	case "sign":
 		args = append(args, "--sign")
@@ -1038,9 +1041,26 @@ func c44GPGToGo(g *gpgEnv, p *keyPool, cs *c44Case, bufSize int) (skip string, e
 		}
 		return "", nil
 	}
-	r := c44ReadMessage(so, c44Ring(p, cs, -1), cs.pass, bufSize)
+	ring := c44Ring(p, cs, -1)
+	if cs.op == "encrypt" {
+		// another decryption-capable key in front of the recipients' (matters for hidden recipients)
+		for _, o := range p.recipients() {
+			isR := false
+			for _, rc := range cs.rcpts {
+				isR = isR || rc == o
+			}
+			if !isR && o != cs.signer {
+				ring = append(openpgp.EntityList{o.ent}, ring...)
+				break
+			}
+		}
+	}
+	r := c44ReadMessage(so, ring, cs.pass, bufSize)
 	if r.panicked != nil {
 		return "", fmt.Errorf("reading gpg output %s", r.panicked)
+	}
+	if (r.err != nil || r.readErr != nil) && cs.op == "encrypt" && wrongKeyOpens(so, ring, cs.rcpts) {
+		return "a wrong key happens to unpad a session key packet", nil
 	}
 	if (r.err != nil || r.readErr != nil || r.md.SignatureError != nil || (cs.signer != nil && !r.verified())) && !gpgAccepts() {
 		return "gpg does not accept its own output", nil
@@ -1172,6 +1192,10 @@ func TestC44(t *testing.T) {
 			c.Sample(cs.render())
 		}
 
+		if cs.op == "encrypt" {
+			c44Addressing(rt, c, p, cs, out, bufSize)
+		}
+
 		// text-mode signatures verify over the CRLF form as well
 		if strings.Contains(cs.op, "text") && !refpgp.HasStrayCR(cs.msg) {
 			alt := refpgp.CanonText(cs.msg)
@@ -1253,6 +1277,9 @@ func TestC44(t *testing.T) {
 	})
 
 	c44SKESKMatrix(t, c)
+	if ev.Mine(2) {
+		c44LockedRecipient(t, c, p, ev.Seed())
+	}
 
 	c44Directed(t, c, p, g)
 }
